@@ -37,8 +37,8 @@ inline LMap gen_lmap(Tape& t, size_t maxTiles, unsigned minLg = 0) {
 	  for (unsigned i = 0; i < nm; ++i) { q ^= q << 13; q ^= q >> 7; q ^= q << 17; if (wide) m.mappings.push_back({uint16_t(q), uint16_t(q >> 16), uint16_t(q >> 32), uint16_t(q >> 48)}); else m.mappings.push_back({uint16_t(i * 7 + (q & 255)), uint16_t(i * 13 + 1), uint16_t(i % 5), uint16_t(i % 3)}); } }
 	unsigned nt = unsigned(t.below(5));
 	for (unsigned i = 0; i < nt; ++i) { std::array<uint8_t, 264> a; uint8_t b = t.u8(); for (size_t k = 0; k < 264; ++k) a[k] = uint8_t(k * 5 + b + i); m.terrains.push_back(a); }
-	unsigned ng = unsigned(t.below(7));
-	for (unsigned i = 0; i < ng; ++i) { refmap::Group g; g.w = uint32_t(t.below(6)); g.h = uint32_t(t.below(6)); if (t.below(5) == 0) g.w = 0; else if (t.below(12) == 0) { g.w = uint32_t(t.pick<uint32_t>({1, 16, 40, 255, 256, 257})); g.h = uint32_t(1 + t.below(3)); } g.indices.resize(size_t(g.w) * g.h); for (auto& x : g.indices) x = t.u16(); g.name = gen_str(t, 20); m.groups.push_back(g); }
+	unsigned ng = unsigned(t.below(7)); if (t.below(20) == 0) ng = 300;
+	for (unsigned i = 0; i < ng; ++i) { refmap::Group g; g.w = uint32_t(t.below(6)); g.h = uint32_t(t.below(6)); if (t.below(5) == 0) g.w = 0; else if (t.below(12) == 0) { g.w = uint32_t(t.pick<uint32_t>({1, 16, 40, 255, 256, 257})); g.h = uint32_t(1 + t.below(3)); } g.indices.resize(size_t(g.w) * g.h); for (auto& x : g.indices) x = t.u16(); g.name = gen_str(t, 20); if (t.below(16) == 0) g.name = std::string(t.pick<size_t>({255, 256, 300, 70000}), char('a' + t.below(26))); m.groups.push_back(g); }
 	m.unknownWord = t.below(3) == 0 ? t.u32() : (ng ? ng - 1 : 0);
 	if (t.below(4) == 0) m.trailing = t.bytes(t.below(20));
 	return m;
